@@ -353,6 +353,9 @@ func (g *Gen) genProgram(v2 bool, npk int, depth int) ([]GenPkg, []string) {
 			// string constants of a DEFINED string type (and an expression derived from one): their value is the
 			// string, not its quoted form
 			b.WriteString("type ZColor string\n\nconst C10 ZColor = \"red\"\n\nconst C11 = C10 + \"dish with a tail that makes the constant much longer than seventy-two characters in all\"\n\n")
+			// integer constants outside the int64 range: the value is the exact one
+			b.WriteString("const C12 uint64 = 1<<64 - 1\n\nconst C13 = 1 << 70\n\nconst C14 = -(1 << 64) - 5\n\n")
+			pg.classes["integer-constant-beyond-int64"] = true
 			pg.classes["string-constant-of-defined-type"] = true
 			pg.classes["constants"] = true
 		}
